@@ -77,6 +77,21 @@ impl Analysis {
 
     /// a region that may or may not run (or may be left half-way): what it declares is visible
     /// inside it, and only *maybe* declared afterwards
+    /// like `cond`, and returns what the region declares at its own top level
+    fn cond_collect(&mut self, e: &Ex) -> BTreeSet<String> {
+        self.cond_depth += 1;
+        self.scopes.push(BTreeSet::new());
+        self.maybe.push(BTreeSet::new());
+        self.visit(e);
+        let declared = self.scopes.pop().unwrap();
+        let maybe_inner = self.maybe.pop().unwrap();
+        let m = self.maybe.last_mut().unwrap();
+        m.extend(declared.iter().cloned());
+        m.extend(maybe_inner);
+        self.cond_depth -= 1;
+        declared
+    }
+
     fn cond(&mut self, e: &Ex) {
         self.cond_depth += 1;
         self.scopes.push(BTreeSet::new());
@@ -187,6 +202,8 @@ impl Analysis {
 
     pub fn visit(&mut self, e: &Ex) {
         match e {
+            // (a negative integer literal is written `(0-n)` and so mentions `-`)
+            Ex::Num(NumLit::Int(i)) if *i < 0 => self.read("-"),
             Ex::Null | Ex::Num(_) | Ex::Str(_) => {}
             Ex::Var(n) => self.read(n),
             Ex::List(xs) | Ex::CommaSeq(xs) => {
@@ -255,9 +272,21 @@ impl Analysis {
             }
             Ex::If(c, a, b) => {
                 self.visit(c);
-                self.cond(a);
-                if let Some(b) = b {
-                    self.cond(b);
+                match b {
+                    None => self.cond(a),
+                    Some(b) => {
+                        // what BOTH branches declare (at their own top level) is declared at every
+                        // point after the `if` that control can reach
+                        let da = self.cond_collect(a);
+                        let db = self.cond_collect(b);
+                        let both: Vec<String> = da.intersection(&db).cloned().collect();
+                        for n in both {
+                            if let Some(m) = self.maybe.last_mut() {
+                                m.remove(&n);
+                            }
+                            self.declare(&n);
+                        }
+                    }
                 }
             }
             Ex::While(c, b) => {
